@@ -141,8 +141,12 @@ def g_movefield(rng, ragged):
 def g_cat(rng, ragged):
     ts = []
     allnames = ['f0', 'f1', 'f2', 'g0', 'g1']
-    for _ in range(rng.randint(1, 3)):
+    for ti in range(rng.randint(1, 3)):
         hdr = rng.sample(allnames, rng.randint(1, 3))
+        if ti > 0 and rng.random() < 0.25:
+            # a later table may repeat a field name: the output is still the *union* of the field names (the name once,
+            # taken from the first field of that name)
+            hdr.insert(rng.randint(0, len(hdr)), rng.choice(hdr))
         rows = []
         for _ in range(rng.randint(0, 3)):
             r = [rng.choice(CELLS) for _ in hdr]
@@ -297,7 +301,7 @@ def g_fillright(rng, ragged):
 @form('fieldmap')
 def g_fieldmap(rng, ragged):
     t = _table(rng, False, pool=[0, 1, 2, 5, 'a', 'ab'], minf=2)
-    return {'table': t, 'failsafe': True}
+    return {'table': t, 'failsafe': True, 'suffix': rng.random() < 0.3}
 
 
 @form('rowmap', ragged='rect')
@@ -331,7 +335,8 @@ RULE = ('cases = (transform form, table, arguments); %d forms covering cut, cuto
         'duplicate field names where resolution is by the index/name rule, field selection by name / index / mixed, negative and out-of-range '
         'insertion indices. Non-trivial: >= 2 data rows. Distinct = SHA-1 of the case.' % len(FORMS))
 REQUIRED = ['form:' + f for f in FORMS] + ['ragged-judged', 'duplicate-names-judged', 'frame-condition-used', 'exact-comparison-used',
-                                           'negative-or-out-of-range-insertion-index']
+                                           'negative-or-out-of-range-insertion-index', 'cat:repeated-field-name-in-a-later-table',
+                                           'fieldmap:suffix-notation-two-views']
 
 
 # ---------------------------------------------------------------------------
@@ -435,6 +440,8 @@ def j_cat(case, ctx, table, hdr, rows, tabs, frame):
                     outhdr.append(h)
     else:
         outhdr = list(header)
+    if any(len(set(t[0])) < len(t[0]) for t in tabs[1:]):
+        ctx.seen('cat:repeated-field-name-in-a-later-table')
     exp = [tuple(outhdr)]
     for t in tabs:
         h = t[0]
@@ -770,6 +777,24 @@ def j_fieldmap(case, ctx, table, hdr, rows, tabs, frame):
     exp = [tuple(m.keys())]
     for r in rows:
         exp.append((r[0], r[1], ('F', r[0]), {1: 'one', 'a': 'A'}.get(r[1], r[1]) if not isinstance(r[1], (list, dict)) else r[1], r[0] == r[1], (r[0], r[1])))
+    if case.get('suffix'):
+        # the suffix notation on views created without a mappings argument: every view has its own, initially empty, mapping
+        ctx.seen('fieldmap:suffix-notation-two-views')
+
+        def build_two():
+            v1 = petl.fieldmap(table)
+            v2 = petl.fieldmap(table)
+            for k_, v_ in m.items():
+                v1[k_] = v_
+            v2['only'] = hdr[1]
+            return v1, v2
+        vs = util.attempt(build_two)
+        if isinstance(vs, util.Raised):
+            return {'kind': 'exception', 'detail': vs.text, 'where': vs.where}
+        r2 = _report(_run(lambda: vs[1]), [('only',)] + [(r[1],) for r in rows], 'fieldmap-second-view', case)
+        if r2:
+            return r2
+        return _report(_run(lambda: vs[0]), exp, 'fieldmap', case)
     return _report(_run(lambda: petl.fieldmap(table, m)), exp, 'fieldmap', case)
 
 
